@@ -416,7 +416,8 @@ class Cascade:
 
         # Combine outputs
         outputs = [r.output_signal for r in stage_results if r.status == StageStatus.COMPLETED]
-        final_output = outputs if outputs else None
+        # As in run(): no output is released unless every stage completed
+        final_output = outputs if (outputs and success) else None
 
         total_time = (time.time() - start_time) * 1000
 
